@@ -1,5 +1,6 @@
 import Casm.Proofs.SwitchCongr
 import Casm.Proofs.StableId
+import Casm.Proofs.Recompute
 /-!
 # Casm.Proofs.SwitchPass — a pass that is not the first is the same with the switch set either way
 
@@ -47,18 +48,15 @@ theorem dispatch_switch (st : Static) (b : Bool) (d : Defs) (ctx : RCtx) (n : As
 
 theorem passNode_switch (st : Static) (b last : Bool) (ps : PassSt) (n : AstNode) (k : Nat) :
     passNode (st.withStatic b) false last ps n k = passNode st false last ps n k := by
-  rw [passNode_eq, passNode_eq]
+  rw [passNode_eq', passNode_eq']
   have hn : ∀ d, nodeItem (st.withStatic b) d n k = nodeItem st d n k := fun d => rfl
-  simp only [hn]
-  have hd : ∀ it : IterSt, dispatch (st.withStatic b) ps.defs
-      ⟨false, last, (match n with
-        | .symbol _ _ _ _ (some r) => ((st.withStatic b).decls.symbols.decls.getD r default).ctx
-        | _ => ps.symCtx), it.bank, it.pos⟩ n k = dispatch st ps.defs
-      ⟨false, last, (match n with
-        | .symbol _ _ _ _ (some r) => (st.decls.symbols.decls.getD r default).ctx
-        | _ => ps.symCtx), it.bank, it.pos⟩ n k := fun it => dispatch_switch st b ps.defs _ n k rfl
-  simp only [hd]
-  rfl
+  have hs : stepCtx (st.withStatic b) ps.symCtx n = stepCtx st ps.symCtx n := rfl
+  simp only [hn, hs]
+  cases visit ps.defs.banks ps.it (nodeItem st ps.defs n k) with
+  | error e => rfl
+  | ok it =>
+    simp only
+    rw [dispatch_switch st b ps.defs ⟨false, last, stepCtx st ps.symCtx n, it.bank, it.pos⟩ n k rfl]
 
 theorem resolveOnce_switch (st : Static) (b last : Bool) (nodes : List AstNode) (d : Defs) :
     resolveOnce (st.withStatic b) nodes false last d = resolveOnce st nodes false last d := by
